@@ -15,7 +15,7 @@ from .common import V, Acc, hsh
 from .ref import num, INF
 from . import graphs as gr
 from . import monitors as mon
-from .fam_event_sir import build_graph
+from .fam_event_sir import build_graph, TA, RA, JA
 
 BIG = 1e9
 
@@ -160,8 +160,28 @@ def run_nonmarkov_sis(spec, props=("C13",)):
             d = rf(node)
             return {v: tf(node, v, d) for v in nbrs}, d
         kw = dict(initial_infecteds=list(I0), tmin=tmin, tmax=tmax, return_full_data=full_)
+        bad = orc.ctx.setdefault("badargs", [])
+
+        def tf_a(u, v, d, ta, tb):
+            if (ta, tb) != TA:
+                bad.append(("trans_time_fxn", (ta, tb), TA))
+            return tf(u, v, d)
+
+        def rf_a(u, ra):
+            if (ra,) != RA:
+                bad.append(("rec_time_fxn", (ra,), RA))
+            return rf(u)
+
+        def joint_a(node, nbrs, ja, jb, jc):
+            if (ja, jb, jc) != JA:
+                bad.append(("trans_and_rec_time_fxn", (ja, jb, jc), JA))
+            return joint(node, nbrs)
         if form == "sep":
             return EoN.fast_nonMarkov_SIS(G, trans_time_fxn=tf, rec_time_fxn=rf, **kw)
+        if form == "sep_args":
+            return EoN.fast_nonMarkov_SIS(G, trans_time_fxn=tf_a, rec_time_fxn=rf_a, trans_time_args=TA, rec_time_args=RA, **kw)
+        if form == "joint_args":
+            return EoN.fast_nonMarkov_SIS(G, trans_and_rec_time_fxn=joint_a, trans_and_rec_time_args=JA, **kw)
         return EoN.fast_nonMarkov_SIS(G, trans_and_rec_time_fxn=joint, **kw)
 
     before = mon.snap(G)
@@ -181,6 +201,9 @@ def run_nonmarkov_sis(spec, props=("C13",)):
                     A.add(V(p, fn, cls, "exception", "%s raised %r" % (fn, r.exc), pre))
             continue
         log = r.ctx.get("log", [])
+        if r.ctx.get("badargs") and "C13" in props:
+            w, got, want = r.ctx["badargs"][0]
+            A.add(V("C13", fn, cls, "callback_args", "%s received the extra arguments %r, the caller supplied %r" % (w, got, want), pre))
         recs = []; i = 0
         while i < len(log):
             if log[i][0] != "dur":
@@ -502,6 +525,11 @@ def specs_nonmarkov_sis(tier):
                         b = 2                              # 4-node graphs
                     out.append(dict(fn="fast_nonMarkov_SIS", n=n, edges=es, I0=list(I0), tmax=6.0, budget=b,
                                     form=form, full=full))
+            if len(I0) == 1:
+                for form in ("sep_args", "joint_args"):
+                    for full in (True, False):
+                        out.append(dict(fn="fast_nonMarkov_SIS", n=n, edges=es, I0=list(I0), tmax=6.0, budget=3 if len(es) <= 2 else 2,
+                                        form=form, full=full))
             # exact hit: the first recovery (duration 1+2^-11) lands exactly on tmax; shifted tmin
             out.append(dict(fn="fast_nonMarkov_SIS", n=n, edges=es, I0=list(I0), tmin=0, tmax=jit1, budget=3 if len(es) <= 2 else 2,
                             durations=[1.0, 2.5], form="sep", full=True))
